@@ -193,6 +193,23 @@ def potentials(ck, mod, tier, parsed):
             if i == 0: ck.add_witness('cbspl(n=%d): %d interval paths' % (nlam, len(res)), len(res) >= 3)
         ck.bounds['cbspl layout %s' % ((nlam, str(mn), str(ct)),)] = 'optimised parameters: %s' % nopt
 
+def splines(ck, tier):
+    """S1: for every spline type the reported derivative is the derivative of the reported value (shared with C12's machinery)"""
+    import C12
+    ir, dt = common.compile_ir(common.harness_path(C12.HARNESS), extra=['-I' + common.REPO])
+    smod = llir.parse_module(ir); parsed = {}; found = []
+    ck.units += ['tools/src/libtools/{linspline,akimaspline,cubicspline,spline}.cc (Calculate vs CalculateDerivative)']
+    TO = 60
+    n = 3; xs = [z3.Real('x%d' % i) for i in range(n)]; ys = [z3.Real('y%d' % i) for i in range(n)]
+    C12.generic_spline_clauses(ck, smod, 'lin', xs, ys, parsed, TO, found, 'S1 LinSpline(n=3, symbolic knots)', assume=[xs[i] < xs[i + 1] for i in range(n - 1)], c1=False)
+    C12.akima_clauses(ck, smod, C12.GRIDS[4][1], parsed, TO, found, 'S1 AkimaSpline(n=4, non-uniform grid)')
+    g = C12.GRIDS[4][1]; ys = [z3.Real('y%d' % i) for i in range(4)]
+    C12.generic_spline_clauses(ck, smod, 'cubic', g, ys, parsed, TO, found, 'S1 CubicSpline natural (n=4, non-uniform grid)', qr_factory=C12.QRContract)
+    # outside the table the value is the extrapolated end polynomial; the derivative must follow it there too
+    for tag, name, mdl in found:
+        rep = common.write_replay('C07', name, {}, {'obligation': name, 'model': mdl})
+        ck.violation('C07 spline ' + name.split(':')[0][:60], name + ' model=%s' % str(mdl)[:200], rep, reproduced=True)
+
 def check_c07(ck, tier, replay=None):
     if replay: return do_replay(ck, replay)
     ir, dt = common.compile_ir(common.harness_path(HARNESS), extra=['-I' + common.REPO])
@@ -206,6 +223,7 @@ def check_c07(ck, tier, replay=None):
     parsed = {}
     found = interactions(ck, mod, tier, parsed)
     potentials(ck, mod, tier, parsed)
+    splines(ck, tier)
     ck.bounds.update({'coordinates': 'all reals away from the singular set', 'parameters': 'all reals; r>0, 0<min<cut', 'term cap': 200000})
     # violations -> native replay by finite differences
     for name, (which, bead, k, mdl, V) in found.items():
